@@ -533,6 +533,98 @@ theorem c06_top_cascade_syncs (T : Top D S F) (v : Variant) (hit : F → F → B
     Synced (tfresh d s : TSt D S F) ∧ Synced (tstep T v hit cfg t .llhInit).1 :=
   ⟨rfl, rfl⟩
 
+/-- **the composite likelihood of several datasets** (`MultiDatasetTCLLHRatio.evaluate`): after any
+history of complete call sequences the composite log-lambda `Σ_j log-lambda_j(ns·f_j)` and its
+ns-gradient `Σ_j f_j ∂_ns log-lambda_j` equal the stateless composite evaluator on the current data
+and source, and the call raises exactly when it raises — whatever was evaluated, initialised or
+changed before, and whatever the weight services handed out earlier. -/
+theorem c06_comp_transparent (C : Comp D S F) (v : Variant) (hit : F → F → Bool) (cfg : Cfg)
+    (hs : Sound v cfg hit) (hr : v.resetNsgrad = true) (d0 : D) (s0 : S)
+    (fops : List (FOp D S F)) (q : Query F) :
+    let c := (crun C v hit cfg (cfresh d0 s0) (cexpandAll d0 fops)).1
+    (cstep C v hit cfg c (.cevaluate q)).2 =
+      match compPure C cfg.parabola (clastData d0 fops) (clastSrc s0 fops) q with
+      | some p => .vals p.1.1 p.1.2
+      | none => .evalError := by
+  intro c
+  have hl : c.t = (trun C.T v hit cfg (tfresh d0 s0) (expandAll d0 (lower C s0 fops))).1 :=
+    crun_lower C v hit cfg fops (cfresh d0 s0)
+  obtain ⟨hb, -, -⟩ := c06_top_refines C.T v hit cfg hs hr d0 s0 (lower C s0 fops)
+  have hds := c06_current_data_src C.T.W v hit cfg (lower C s0 fops) (fresh d0 s0 : St D S F)
+  obtain ⟨hld, hls⟩ := lower_lastData C fops d0 s0
+  rw [← hl] at hb
+  rw [← hb] at hds
+  simp only [fresh] at hds
+  rw [hld, hls] at hds
+  clear_value c
+  simp only [cstep, compPure, hds.2]
+  cases hf : C.fj (clastSrc s0 fops) q with
+  | nil => rfl
+  | cons f0 fr =>
+    have ht := c06_top_transparent C.T v hit cfg hs hr d0 s0 (lower C s0 fops) (q0 q f0)
+    simp only [← hl, hld, hls] at ht
+    cases hp : topPure C.T cfg.parabola (clastData d0 fops) (clastSrc s0 fops) (q0 q f0) with
+    | none =>
+      rw [hp] at ht
+      have ht' : (tstep C.T v hit cfg c.t (.evaluate (q0 q f0))).2 = .evalError := ht
+      simp only [ht', hp]
+    | some p =>
+      rw [hp] at ht
+      obtain ⟨o, ho, h1, h2, -, -⟩ := ht
+      simp only [ho, h1, h2, hds.1, hp]
+
+/-- **the composite second derivative** (`MultiDatasetTCLLHRatio.calculate_ns_grad2`): after any history
+of complete call sequences it is `Σ_j f_j² · ∂²_ns log-lambda_j(ns·f_j)` built from (1) the weight
+factors `f_j` of the last successful composite evaluation of the current trial, (2) the per-event
+ns-gradients every dataset cached in that evaluation, (3) the event counts of the current trial — a
+pure function of (current data, current source, that evaluation's point, `ns`) — and it is refused when
+there is no such evaluation.  In particular nothing an earlier evaluation, trial, source or weight
+calculation left behind can enter. -/
+theorem c06_comp_grad2 (C : Comp D S F) (v : Variant) (hit : F → F → Bool) (cfg : Cfg)
+    (hs : Sound v cfg hit) (hr : v.resetNsgrad = true) (hc : v.clearNsgOnEval = true) (d0 : D)
+    (s0 : S) (fops : List (FOp D S F)) (ns : F) :
+    let c := (crun C v hit cfg (cfresh d0 s0) (cexpandAll d0 fops)).1
+    let d := clastData d0 fops
+    let s := clastSrc s0 fops
+    (cstep C v hit cfg c (.cgrad2 ns)).2 =
+      match clastEval C cfg.parabola s0 none fops with
+      | none => .refused
+      | some q =>
+        match C.fj s q with
+        | f0 :: fr => .grad2 (cgrad2Of C d s f0 fr (nsgradPure C.T cfg.parabola d s (q0 q f0))
+            ((othersEval C d s q fr).map (·.2.2)) ns)
+        | [] => .refused := by
+  intro c d s
+  have h0 : CI C cfg.parabola (cfresh d0 s0) (fresh d0 s0) none :=
+    ⟨⟨rfl, rfl, rfl⟩, inv_fresh C.T.W cfg.parabola d0 s0, by intro q hq; cases hq⟩
+  have h := ci_run C v hit cfg hs.2 hs.1 hr hc fops (cfresh d0 s0) (fresh d0 s0) none h0
+  have hds := c06_current_data_src C.T.W v hit cfg (lower C s0 fops) (fresh d0 s0 : St D S F)
+  obtain ⟨hld, hls⟩ := lower_lastData C fops d0 s0
+  simp only [fresh] at hds
+  rw [hld, hls] at hds
+  change CI C cfg.parabola c _ _ at h
+  clear_value c
+  have hbd : c.t.base.data = d := by rw [h.ti.base]; exact hds.1
+  have hbs : c.t.base.src = s := by rw [h.ti.base]; exact hds.2
+  have hnsg := h.ti.nsg
+  have hsvc := h.svc
+  simp only [fresh] at hnsg hsvc
+  rw [hds.1, hds.2] at hnsg
+  rw [hds.1, hds.2] at hsvc
+  cases hr' : clastEval C cfg.parabola s0 none fops with
+  | none =>
+    rw [hr'] at hnsg
+    simp only [lowQ, Option.bind_none, Option.map_none] at hnsg
+    simp only [cstep, hnsg]
+    cases c.fsvc with
+    | none => rfl
+    | some f => cases f <;> rfl
+  | some q =>
+    rw [hr'] at hnsg
+    obtain ⟨f0, fr, hf, hfs, hn2⟩ := hsvc q hr'
+    simp only [lowQ, Option.bind_some, hf, Option.map_some] at hnsg
+    simp only [cstep, hnsg, hfs, hn2, hf, hbd, hbs]
+
 end top
 
 /-! ### the current source satisfies the hypotheses -/
